@@ -453,9 +453,18 @@ func runReplay(bin, prop, path string, verbose bool) int {
 		fmt.Print(outb.String())
 	}
 	if ee, ok := err.(*exec.ExitError); ok {
+		if ee.ExitCode() == 2 && !verbose {
+			// say why: head and tail of what the replay process printed
+			o := outb.String()
+			if len(o) > 3000 {
+				o = o[:1500] + "\n...\n" + o[len(o)-1500:]
+			}
+			fmt.Fprintf(os.Stderr, "replay process exit 2:\n%s\n", o)
+		}
 		return ee.ExitCode()
 	}
 	if err != nil {
+		fmt.Fprintf(os.Stderr, "replay process could not be started: %v\n", err)
 		return 2
 	}
 	return 0
